@@ -112,6 +112,12 @@ AllComparable(v) == CASE v.k = "pair" -> AllComparable(v.a) /\ AllComparable(v.b
                       [] v.k \in {"injl", "injr"} -> AllComparable(v.i)
                       [] OTHER -> Comparable(v)
 
+RECURSIVE StrLtFrom(_, _, _)
+StrLtFrom(x, y, i) == IF i > Len(y) THEN FALSE
+                      ELSE IF i > Len(x) THEN TRUE
+                      ELSE IF x[i] # y[i] THEN x[i] < y[i] ELSE StrLtFrom(x, y, i + 1)
+StrLt(x, y) == StrLtFrom(x, y, 1)
+
 BinOp(c, op, a, b) ==
   CASE op = "=" -> IF AllComparable(a) /\ AllComparable(b) THEN Ret(c, VBool(ValEq(a, b))) ELSE Stuck(c, "comparison of closures")
     [] op = "+" /\ a.k = "str" /\ b.k = "str" -> Ret(c, VStr(a.s \o b.s))
@@ -129,6 +135,10 @@ BinOp(c, op, a, b) ==
          THEN LET amt == ShiftAmt(b.w, 8 * Len(a.w)) IN
               Ret(c, VW(a.k, IF op = "shl" THEN Shl(a.w, amt) ELSE Shr(a.w, amt)))
          ELSE Stuck(c, "shift of a non-word")
+    \* (ordering of strings: byte-wise lexicographic, as in Go; whether GooseLang defines it at all is not known
+    \*  offline, so the model is deliberately permissive here and goose's acceptance of it is not judged)
+    [] op \in {"<", "<=", ">", ">="} /\ a.k = "str" /\ b.k = "str" ->
+         Ret(c, VBool(CASE op = "<" -> StrLt(a.s, b.s) [] op = "<=" -> ~StrLt(b.s, a.s) [] op = ">" -> StrLt(b.s, a.s) [] op = ">=" -> ~StrLt(a.s, b.s)))
     [] op \in {"<", "<=", ">", ">="} ->
          IF SameWidth(a, b)
          THEN Ret(c, VBool(CASE op = "<" -> Lt(a.w, b.w) [] op = "<=" -> Le(a.w, b.w) [] op = ">" -> Lt(b.w, a.w) [] op = ">=" -> Le(b.w, a.w)))
